@@ -82,7 +82,7 @@ def run_catalog(d, res):
                 wf = None
             sim = dd.sys.getSimulator()
         except Exception:
-            Wire.prepared = []
+            core.reset_prepared()
             res['constructor_rejected'] += 1
             continue
         res['configs'] += 1
@@ -100,7 +100,7 @@ def run_catalog(d, res):
                 try:
                     sim.clk(1)
                 except Exception:
-                    Wire.prepared = []
+                    core.reset_prepared()
                     break
                 res['evaluations'] += 1
                 b = bad_wires(wires)
@@ -161,7 +161,7 @@ def run_extremes(d, res):
             wf = py4hw.Waveform(hw, 'wvf', [x for x in wires])
             sim = hw.getSimulator()
         except Exception as e:
-            Wire.prepared = []
+            core.reset_prepared()
             res['constructor_rejected'] += 1
             return
         lst = Listener(wires)
